@@ -181,7 +181,7 @@ type mutation struct {
 }
 
 // mutations that need a multiplexer apply to few sites: they are tried more often
-var mutationWeight = map[string]int{"mux-groups": 4, "nested-name-clash": 3, "deep-name-clash": 4, "group-count-boundary": 4, "cross-mux-ref": 4, "retarget-id": 3, "size-fields": 4, "overlap-in-shared-group": 5, "enum-numbers": 3, "second-interface-of-node-on-bus": 4, "duplicate-key": 3, "duplicate-number-key": 3}
+var mutationWeight = map[string]int{"mux-groups": 4, "nested-name-clash": 3, "deep-name-clash": 4, "group-count-boundary": 4, "cross-mux-ref": 4, "retarget-id": 3, "size-fields": 4, "overlap-in-shared-group": 5, "enum-numbers": 3, "second-interface-of-node-on-bus": 4, "duplicate-key": 3, "duplicate-number-key": 3, "drop-definition": 5}
 
 func pickMutation(r *rng) mutation {
 	total := 0
@@ -233,6 +233,60 @@ var mutations = []mutation{
 		}
 		*s.ents[i] = nil
 		return "entity of a " + s.entOwners[i] + " deleted"
+	}},
+	{"drop-definition", func(r *rng, n *pb.Network, s *sites) string {
+		// a definition is removed from its table while the references to its id stay (dangling id).  The valid save
+		// that defines it was loaded earlier in this process: nothing of an earlier load may satisfy the reference.
+		for t := 0; t < 12; t++ {
+			switch r.below(7) {
+			case 0:
+				if k := len(n.SignalTypes); k > 0 {
+					i := r.below(k)
+					n.SignalTypes = append(n.SignalTypes[:i:i], n.SignalTypes[i+1:]...)
+					return "signal type removed, references kept"
+				}
+			case 1:
+				if k := len(n.SignalUnits); k > 0 {
+					i := r.below(k)
+					n.SignalUnits = append(n.SignalUnits[:i:i], n.SignalUnits[i+1:]...)
+					return "signal unit removed, references kept"
+				}
+			case 2:
+				if k := len(n.SignalEnums); k > 0 {
+					i := r.below(k)
+					n.SignalEnums = append(n.SignalEnums[:i:i], n.SignalEnums[i+1:]...)
+					return "signal enum removed, references kept"
+				}
+			case 3:
+				if k := len(n.Attributes); k > 0 {
+					i := r.below(k)
+					n.Attributes = append(n.Attributes[:i:i], n.Attributes[i+1:]...)
+					return "attribute removed, references kept"
+				}
+			case 4:
+				if k := len(n.Nodes); k > 0 {
+					i := r.below(k)
+					n.Nodes = append(n.Nodes[:i:i], n.Nodes[i+1:]...)
+					return "node removed, references kept"
+				}
+			case 5:
+				if k := len(n.CanidBuilders); k > 0 {
+					i := r.below(k)
+					n.CanidBuilders = append(n.CanidBuilders[:i:i], n.CanidBuilders[i+1:]...)
+					return "CAN-ID builder removed, references kept"
+				}
+			case 6:
+				if len(s.sigLists) > 0 {
+					l := s.sigLists[r.below(len(s.sigLists))]
+					if k := len(*l); k > 0 {
+						i := r.below(k)
+						*l = append((*l)[:i:i], (*l)[i+1:]...)
+						return "signal removed from a signal list, payload / group references kept"
+					}
+				}
+			}
+		}
+		return ""
 	}},
 	{"delete-payload", func(r *rng, n *pb.Network, s *sites) string {
 		if len(s.msgs) == 0 {
@@ -1838,6 +1892,19 @@ func runC13(seed uint64, ncases int, outPath string, replay string) {
 		}
 	}
 	st.cases = 0
+
+	// ---- sequences of loads in one process: every valid base save is loaded first (also after a resume, where the
+	// earlier inputs are skipped), so that the mutated saves that follow - in particular those with a dangling id
+	// (drop-definition, retarget-id) - are loaded by a process that has already seen the definitions they lack.
+	// Each later load is judged on its own (model comparison), exactly as if it had been the first.
+	for bi, bb := range baseBytes {
+		for e, enc := range []acmelib.SaveEncoding{acmelib.SaveEncodingWire, acmelib.SaveEncodingJSON, acmelib.SaveEncodingText} {
+			if skipping {
+				guardedLoad(bb[e], enc, watchdog)
+			}
+			evaluate(c13Input{fmt.Sprintf("b%d", bi), enc, bb[e], "valid save of a generated network (loaded before its mutants)"})
+		}
+	}
 
 	// ---- tiny inputs, exhaustively: every input of length 0 and 1, the 2-byte inputs (all of them when
 	// VERIF_TINY_ALL is set = thorough tier; otherwise those starting with a byte that means something to one of the
